@@ -33,6 +33,9 @@ def run(ctx):
     # type per file: the verdict does not depend on which file is read first (and no order crashes)
     for fam in ("inherit", "alias", "contain"):
         ctx.tlc("MC_CyclesGen", "MC_CyclesGen_%s_files" % fam, replay="repro", coverage=False, label="MC_CyclesGen_%s_files" % fam)
+    # two files with lints at the same rows and columns, some of them suppressed (the program of C13): which lints are
+    # reported does not depend on the order of the files
+    ctx.tlc("MC_ManyLints", "MC_ManyLints_one" if ctx.quick else "MC_ManyLints", replay="repro", coverage=False, label="MC_ManyLints(file orders)")
     ctx.tlc("MC_Collide", "MC_Collide_asbuilt", must_pass=False, label="MC_Collide_asbuilt(documents the pinned table)", coverage=False)
     n = 90 if ctx.quick else 3000
     os_env = {"VERIF_REPRO_RERUNS": "3" if ctx.quick else "5"}
